@@ -71,7 +71,7 @@ func (c *c20) do(method, path string, body any) c20Resp {
 		return out
 	}
 	out.obj = parseObj(res.body)
-	c.r.Sample(fmt.Sprintf("%s %s -> %d", method, strings.SplitN(path, "?", 2)[0][:minInt(len(path), 24)], res.status), map[string]any{"request": method + " " + truncStr(path, 60), "body": truncStr(string(b), 200), "status": res.status, "answer": truncStr(string(res.body), 200)})
+	c.r.Sample(fmt.Sprintf("%s %s -> %d", method, truncStr(strings.SplitN(path, "?", 2)[0], 24), res.status), map[string]any{"request": method + " " + truncStr(path, 60), "body": truncStr(string(b), 200), "status": res.status, "answer": truncStr(string(res.body), 200)})
 	return out
 }
 
